@@ -187,7 +187,10 @@ def check_averaging(ctx):
             ctx.undecided(R1, f.key + f":write-back:{ia}", f"the measured values could not be identified, so it is unknown whether `{va}` holds them", f)
             continue
         ctx.check(ok, R1, f.key + f":write-back:{ia}", f"{part} values are written to the positions remembered for that partition", f"write-back loop zips {va} with {ia}: values of one partition must be stored at the indices remembered for the same partition", f"{f.module.relpath}:{l.lineno}")
-    ctx.check(seen >= {"measured", "not-measured"}, R1, f.key + ":write-back:both", "both partitions are written back", "one of the two partitions is never written back into the result list", f)
+    if not loops:
+        ctx.undecided(R1, f.key + ":write-back:both", "cannot find the two `for value, index in zip(values, indices)` write-back loops", f)
+    else:
+      ctx.check(seen >= {"measured", "not-measured"}, R1, f.key + ":write-back:both", "both partitions are written back", "one of the two partitions is never written back into the result list", f)
     rets = returned_exprs(f.node)
     ok = len(rets) == 1 and full is not None and full in {n.id for n in ast.walk(rets[0]) if isinstance(n, ast.Name)} and _reorders(rets[0]) is None
     ctx.check(ok, R2, f.key + ":return", "the filled list is returned as is", "the filled result list is not what is returned (or it is re-ordered on the way out)", f)
@@ -365,13 +368,19 @@ def check_exact(ctx):
             ok = norm(calls[0].func.value) == runner and (args == [f"{t}.circuit", f"{t}.operator"] or set(args) == {f"circuit={t}.circuit", f"operator={t}.operator"}) and not v.generators[0].ifs and _reorders(v.generators[0].iter) is None
             detail = f"{short(calls[0])}: the simulator takes (circuit, operator) of the same task"
             name = nm
-    ctx.check(ok, R5, f.key + ":per-task", "one exact value per task, in order, from (task.circuit, task.operator)", detail, f)
+    if name is None and detail == "no pass over the tasks":
+        ctx.undecided(R5, f.key + ":per-task", "cannot find a comprehension over the tasks calling get_exact_expectation_values", f)
+    else:
+      ctx.check(ok, R5, f.key + ":per-task", "one exact value per task, in order, from (task.circuit, task.operator)", detail, f)
     sig = repo.func("api.wavefunction_simulator:BaseWavefunctionSimulator.get_exact_expectation_values")
     ps = positional_params(sig.node)
     ctx.check(ps[1:3] == ["circuit", "operator"], R5, sig.key + ":signature", "simulator signature is (circuit, operator)", f"the simulator's signature is {ps}: the estimation code passes (circuit, operator) positionally", sig)
     rets = returned_exprs(f.node)
     ok = len(rets) == 1 and isinstance(rets[0], ast.ListComp) and not rets[0].generators[0].ifs and (name is None or norm(rets[0].generators[0].iter) == name) and isinstance(rets[0].elt, ast.Call) and dotted(rets[0].elt.func) == "ExpectationValues" and norm(rets[0].generators[0].target) in norm(rets[0].elt)
-    ctx.check(ok, R5, f.key + ":wrap", "each value wrapped in its own ExpectationValues, order kept", "the exact values are not wrapped one-to-one, in order", f)
+    if not (len(rets) == 1 and isinstance(rets[0], ast.ListComp)):
+        ctx.undecided(R5, f.key + ":wrap", "the result is not returned as one list comprehension wrapping the values", f)
+    else:
+      ctx.check(ok, R5, f.key + ":wrap", "each value wrapped in its own ExpectationValues, order kept", "the exact values are not wrapped one-to-one, in order", f)
 
 
 def run(ctx):
